@@ -772,10 +772,10 @@ func (r *dictRun) modeRand(rounds, maxN int) {
 			d := r.newID()
 			r.emit("Build", trace.F{"d": d, "via": fmt.Sprintf("bucket-builder(block=%d)", pbs), "keys": bbInts(ps.keys), "vals": uInts(ps.vals)})
 			r.bucketAll(one, d, alpha, ps, 12)
-			if pbs == 1 { // one key per trie: Suggest is a pure heap merge over many single-key iterators
-				r.bucketSuggest(one, d, []byte{}, 1+r.rng.Intn(len(ps.keys)+2))
-				r.bucketSuggest(one, d, pickLit(r.rng, alpha, ps, false), 1+r.rng.Intn(5))
-			}
+			// Suggest = heap merge over the iterators of the bucket's tries: one key per trie (pbs == 1: every iterator is
+			// popped once) and several keys per trie (an iterator goes back into the heap after each key)
+			r.bucketSuggest(one, d, []byte{}, 1+r.rng.Intn(len(ps.keys)+2))
+			r.bucketSuggest(one, d, pickLit(r.rng, alpha, ps, false), 1+r.rng.Intn(5))
 			one.Release()
 			parts = append(parts, ps)
 			partIDs = append(partIDs, d)
@@ -785,6 +785,13 @@ func (r *dictRun) modeRand(rounds, maxN int) {
 			dm := r.newID()
 			r.emit("Merge", trace.F{"d": dm, "from": partIDs, "via": "bucket-unmarshal-many"})
 			r.bucketAll(merged, dm, alpha, u, 20)
+			// the tries of `merged` come from separately built parts: their key ranges INTERLEAVE (a trie contributes
+			// several consecutive keys of the global order between keys of the others)
+			for _, lim := range []int{1, 2, 3, 1 + r.rng.Intn(len(u.keys)+2), len(u.keys) + 5} {
+				r.bucketSuggest(merged, dm, []byte{}, lim)
+			}
+			r.bucketSuggest(merged, dm, pickLit(r.rng, alpha, u, false), 1+r.rng.Intn(4))
+			r.bucketSuggest(merged, dm, pickLit(r.rng, alpha, u, false), 2+r.rng.Intn(6))
 			// rewrite (what the merger does) and load the result
 			var out bytes.Buffer
 			var err error
